@@ -36,7 +36,7 @@ MANIFEST = {
             "{1,2,3,(7, symbolic)} every feasible path of __init__/setter/getter is enumerated by z3 and "
             "the limit / window / floor / read-back obligations are proved for ALL numeric values on the "
             "path (unsat of the negation); histories of 2-3 operations and the increment law likewise. "
-            "Bounded in structure (history length, granularity set), unbounded in the numeric values.",
+            "Bounded in structure (history length, granularity set), unbounded in the numeric values. Enumerated next to it (concrete, reported as such): nan rejection by type and 32 states with non-finite supply.",
     "note": "floats are exact reals (R) or the 1/4 grid (G4), no IEEE rounding; z3 is trusted; proxies are "
             "validated by concrete witness replays of every sampled path on plain python numbers",
     "design_ref": "DESIGN.md §3 C06",
